@@ -41,6 +41,12 @@ def run(tier, seed):
         run.extra["registry_assemblies"] = len(rr)
         if rr:
             ac.validate(run, "registry-assemblies", rr)
+    # multi-level: the provenance features a product received at one level are ordinary features of the module it is at the next
+    try:
+        from . import c11
+        c11.two_level(run)
+    except ImportError:
+        pass
     nin = sum(len(x["feats"]) for t in traces for x in [t[0]["vec"]] + t[0]["mods"])
     nout = sum(1 for t in traces for f in t[0]["out"]["feats"] if not (f["type"] == "source" and f["srclabel"]))
     run.extra.update({"input_features": nin, "inherited_features_in_products": nout})
